@@ -157,6 +157,33 @@ pub fn run(tier: Tier) -> ! {
         families.push(json!({"family": "class pairs: every ordered pair (X,Y) of a menu of near-identical one-character classes as patterns (X)+, (Y)+, (X)(Y)", "menu": menu, "pairs": pairs.len(), "inputs": insc.len(), "exhaustive": true}));
     }
 
+    // branching family (see C02/C03): the single alternation `P|Q` of every ordered pair of branch
+    // patterns, scanned on every string over the letters the pair uses
+    {
+        let br = refsem::families::branch_patterns();
+        let n = br.len() * br.len();
+        let ins_small = inputs(&['a', 'b', 'x', 'y', 'z'], 4);
+        let ins_3way = inputs(&['a', 'b', 'x', 'y', 'p', 'q', 'r'], 3);
+        let accs = par_for(n, 16, || Acc { samples: Samples::new(1), ..Default::default() }, |acc, i| {
+            let (p, q) = (&br[i / br.len()], &br[i % br.len()]);
+            if p == q {
+                return;
+            }
+            let three = p.contains('p') || p.contains('q') || p.contains('r') || q.contains('p') || q.contains('q') || q.contains('r');
+            let small = p.contains('z') || q.contains('z') || !three;
+            let cfg = Cfg::single(vec![bridge::CPat::new(&format!("{p}|{q}"), 3)]);
+            if three && small {
+                // mixed alphabets: both input sets
+                run_cfg(acc, &cfg, &ins_3way, &tables, "branches");
+            }
+            run_cfg(acc, &cfg, if three && !small { &ins_3way } else { &ins_small }, &tables, "branches");
+        });
+        for a in accs {
+            merge(&mut total, a);
+        }
+        families.push(json!({"family": "branching: `P|Q` for all ordered pairs of the branch patterns of C02/C03, inputs {a,b,x,y,z}^<=4 resp. {a,b,x,y,p,q,r}^<=3", "pairs": n, "exhaustive": true}));
+    }
+
     // registration order: character class ids follow the order of first use, not the priority order
     // of the patterns that compete; a leading pattern `#XYZ` (never matched here) registers the
     // classes of three competing patterns in every permutation
@@ -274,7 +301,39 @@ pub fn run(tier: Tier) -> ! {
                 }
             }
         }
+        // lists containing empty and nullable patterns at every position: the token type is the index
+        let menu = ["", "a", "b", "()", "a*", "ab"];
+        let mut n_lists = 0;
+        for code in 0..menu.len().pow(4) {
+            let idx = [code % 6, (code / 6) % 6, (code / 36) % 6, (code / 216) % 6];
+            let pats: Vec<&str> = idx.iter().map(|&i| menu[i]).collect();
+            n_lists += 1;
+            let cfg = cfg_of(&pats, &[0, 1, 2, 3]);
+            let Ok(spec) = cfg.to_spec() else { continue };
+            let sc = match bridge::catch(|| scnr::ScannerBuilder::new().add_patterns(pats.clone()).build()) {
+                Ok(Ok(sc)) => sc,
+                _ => {
+                    acc.build_errors += 1;
+                    continue;
+                }
+            };
+            acc.cfgs += 1;
+            for input in inputs(&['a', 'b'], 3).iter() {
+                acc.scans += 1;
+                let table = ScanTable::new(&spec, input, &tables);
+                let mut st = ScanStats::default();
+                if let Some(d) = lockstep(&sc, &spec, &table, input, None, 0, 1, &mut st) {
+                    acc.viol.add("", || {
+                        let mut r = replay_json(&cfg, input, None, 0, &d);
+                        r["calls"][0] = json!(format!("ScannerBuilder::new().add_patterns({pats:?}).build()  (token type = index)"));
+                        Violation { key: String::new(), summary: format!("add_patterns({:?}) on {:?}: {}", pats, input, d.detail), replay: r }
+                    });
+                    break;
+                }
+            }
+        }
         families.push(json!({"family": "add_patterns([p,q,x]) for all ordered pairs over G(2), inputs {a,b,x,€}^<=3", "configurations": n_simple, "exhaustive": true}));
+        families.push(json!({"family": "add_patterns of every list of 4 patterns from {\"\", a, b, (), a*, ab} (empty and nullable patterns at every position), inputs {a,b}^<=3", "lists": n_lists, "exhaustive": true}));
         merge(&mut total, acc);
     }
 
